@@ -1,0 +1,96 @@
+//go:build verif
+// +build verif
+
+package bfe_server
+
+// Hook for the out-of-tree verification harness of property C28 (build tag verif).  Add-only.
+// It runs the real conn.serve loop (readRequest, Expect handling, ReverseProxy.ServeHTTP,
+// finishRequest, keep-alive decision, error replies) on an in-memory net.Conn that holds the whole
+// pipelined client byte stream.  The "handler" is a HandleBeforeLocation callback supplied by the
+// harness; it sees every request the loop parsed together with the stream offset at which the
+// request started.
+
+import (
+	"bytes"
+	"io"
+	"net"
+	"sync"
+	"time"
+)
+
+import (
+	"github.com/bfenetworks/bfe/bfe_basic"
+	"github.com/bfenetworks/bfe/bfe_http"
+	"github.com/bfenetworks/bfe/bfe_module"
+)
+
+type verifC28Conn struct {
+	in     *bytes.Reader
+	out    bytes.Buffer
+	closed bool
+}
+
+func (c *verifC28Conn) Read(p []byte) (int, error) {
+	if c.closed {
+		return 0, io.ErrClosedPipe
+	}
+	return c.in.Read(p)
+}
+func (c *verifC28Conn) Write(p []byte) (int, error) {
+	if c.closed {
+		return 0, io.ErrClosedPipe
+	}
+	return c.out.Write(p)
+}
+func (c *verifC28Conn) Close() error { c.closed = true; return nil }
+func (c *verifC28Conn) LocalAddr() net.Addr {
+	return &net.TCPAddr{IP: net.IPv4(127, 0, 0, 1), Port: 8080}
+}
+func (c *verifC28Conn) RemoteAddr() net.Addr {
+	return &net.TCPAddr{IP: net.IPv4(127, 0, 0, 2), Port: 40000}
+}
+func (c *verifC28Conn) SetDeadline(t time.Time) error      { return nil }
+func (c *verifC28Conn) SetReadDeadline(t time.Time) error  { return nil }
+func (c *verifC28Conn) SetWriteDeadline(t time.Time) error { return nil }
+
+var verifC28Once sync.Once
+var verifC28Status *ServerStatus
+
+// Return values a VerifC28Handler may use (the BeforeLocation verdicts of bfe_module).
+const (
+	VerifC28Close    = bfe_module.BfeHandlerClose    // close the connection directly, no response
+	VerifC28Finish   = bfe_module.BfeHandlerFinish   // close after reply (no explicit response)
+	VerifC28Response = bfe_module.BfeHandlerResponse // send the returned response
+)
+
+// VerifC28Handler is called for the n-th request handed to ReverseProxy.ServeHTTP; start is the offset
+// in the client byte stream at which conn.readRequest began to read this request.
+type VerifC28Handler func(n int, start int, req *bfe_basic.Request) (int, *bfe_http.Response)
+
+// VerifC28Serve runs conn.serve over the byte stream `input`.  It returns the bytes written to the
+// client and the number of input bytes the connection's buffered reader handed out.
+func VerifC28Serve(input []byte, keepAlive bool, maxHeaderBytes, maxUriBytes int, h VerifC28Handler) (out []byte, consumed int) {
+	verifC28Once.Do(func() { verifC28Status = NewServerStatus() })
+	srv := new(BfeServer)
+	srv.serverStatus = verifC28Status
+	srv.BufioCache = NewBufioCache()
+	srv.ReverseProxy = NewReverseProxy(srv, verifC28Status.ProxyState)
+	srv.CallBacks = bfe_module.NewBfeCallbacks()
+	srv.MaxHeaderBytes = maxHeaderBytes
+	srv.MaxHeaderUriBytes = maxUriBytes
+	srv.SetKeepAlivesEnabled(keepAlive)
+
+	fc := &verifC28Conn{in: bytes.NewReader(input)}
+	c, _ := newConn(fc, srv)
+	rd := c.buf.Reader
+	base := rd.TotalRead
+	n := 0
+	srv.CallBacks.AddFilter(bfe_module.HandleBeforeLocation, func(req *bfe_basic.Request) (int, *bfe_http.Response) {
+		start := rd.TotalRead - base - int(req.HttpRequest.State.HeaderSize)
+		k := n
+		n++
+		return h(k, start, req)
+	})
+	c.serve()
+	return append([]byte(nil), fc.out.Bytes()...), rd.TotalRead - base
+}
